@@ -1228,6 +1228,10 @@ impl<'a> Ctx<'a> {
         let cols = out_cols(self);
         let mut out: Vec<Row> = Vec::new();
         if grouped {
+            if rows.is_empty() && matches!(s.group_by, GroupBy::Rollup(_) | GroupBy::Cube(_)) {
+                // whether the grand-total row exists for empty input is not documented: not asserted
+                return unsup("grouping sets over empty input");
+            }
             let (keys, sets): (Vec<E>, Vec<Vec<bool>>) = match &s.group_by {
                 GroupBy::None => (vec![], vec![vec![]]),
                 GroupBy::Plain(k) => (k.clone(), vec![vec![true; k.len()]]),
